@@ -423,6 +423,8 @@ def observe(root, scn):
                 sys.stdin = FakeStdin(fd)
             elif st == "NOFILENO":
                 sys.stdin = io.StringIO("x = 1\n")
+            elif st == "CLOSED":
+                sys.stdin = None                 # the process was started with standard input closed (`bandit a.py - <&-`)
             else:
                 data = materialise(st["src"])
                 rfd, wfd = os.pipe()
@@ -536,7 +538,7 @@ def expected_outcomes(scn, obs, datas, cls):
         o = {}
         if name == "-":
             st = scn["stdin"]
-            if st == "EBADF":
+            if st in ("EBADF", "CLOSED"):
                 o["open"] = ["os", os.strerror(errno.EBADF)]
             elif st == "NOFILENO":
                 o["open"] = ["os", None]
@@ -951,6 +953,9 @@ def stdin_scenarios():
         out.append((f"stdin-latin1-nofinding/N{n}", {"files": base, "stdin": {"src": b64(b'# coding: latin-1\ns = "\xe9"\n')}}))
         out.append((f"stdin-EBADF/N{n}", {"files": base, "stdin": "EBADF"}))
         out.append((f"stdin-NOFILENO/N{n}", {"files": base, "stdin": "NOFILENO"}))
+        # standard input closed: `-` cannot be opened, like any other target that cannot be opened (found on the unchanged tree: sys.stdin is None then, and the
+        # AttributeError of `.fileno()` escaped run_tests — no report; repaired in /repo)
+        out.append((f"stdin-CLOSED/N{n}", {"files": base, "stdin": "CLOSED"}))
     return out
 
 
